@@ -21,19 +21,21 @@ import (
 // C18 — writer adapters.
 
 type CaseC18 struct {
-	Packets  int     `json:"packets"`   // whole packets in the data
-	Extra    int     `json:"extra"`     // 0..187 additional bytes (partial packet)
-	Seed     byte    `json:"seed"`      // contents are a deterministic function of (seed, position)
-	Content  ref.Hex `json:"content"`   // optional explicit contents overriding the seed pattern (first bytes)
-	FailAt   int     `json:"fail_at"`   // index of the packet write that fails, -1 = none
-	FailN    int     `json:"fail_n"`    // count returned by the failing packet write
-	Ctor     int     `json:"ctor"`      // 0 IOWriter, 1 IOWriteCloser, 2 IOWriter(PacketWriterFunc), 3 IOWriteCloser(NopCloser(func)), 4/5 as 0/1 with a packet writer that also has its own Write method
-	ErrKind  int     `json:"err_kind"`  // error the failing reader returns: 0 plain, 1 timeout-like (Timeout() true), 2 os.ErrDeadlineExceeded, 3 io.ErrNoProgress, 4 wraps io.EOF, 5 wraps io.ErrUnexpectedEOF, 6 io.ErrUnexpectedEOF itself
-	Reader   int     `json:"reader"`    // 0 bytes.Reader 1 bufio 2 one-byte 3 half 4 data-with-EOF 5 chunks
-	Chunks   []int   `json:"chunks"`    // for reader kind 5
-	ReadFail int     `json:"read_fail"` // reader fails with its own error after this many bytes, -1 = never
-	ViaCopy  bool    `json:"via_copy"`  // drive ReadFrom through io.Copy
-	Again    bool    `json:"again"`     // call ReadFrom a second time on the SAME adapter (with an intact stream)
+	Packets     int     `json:"packets"`                 // whole packets in the data
+	Extra       int     `json:"extra"`                   // 0..187 additional bytes (partial packet)
+	Seed        byte    `json:"seed"`                    // contents are a deterministic function of (seed, position)
+	Content     ref.Hex `json:"content"`                 // optional explicit contents overriding the seed pattern (first bytes)
+	FailAt      int     `json:"fail_at"`                 // index of the packet write that fails, -1 = none
+	FailN       int     `json:"fail_n"`                  // count returned by the failing packet write
+	Ctor        int     `json:"ctor"`                    // 0 IOWriter, 1 IOWriteCloser, 2 IOWriter(PacketWriterFunc), 3 IOWriteCloser(NopCloser(func)), 4/5 as 0/1 with a packet writer that also has its own Write method
+	ErrWithData bool    `json:"err_with_data,omitempty"` // the failing reader reports its error together with the last bytes it delivers
+	ErrOnce     bool    `json:"err_once,omitempty"`      // ... and only once: later reads go on delivering data (a deadline, not a dead source)
+	ErrKind     int     `json:"err_kind"`                // error the failing reader returns: 0 plain, 1 timeout-like (Timeout() true), 2 os.ErrDeadlineExceeded, 3 io.ErrNoProgress, 4 wraps io.EOF, 5 wraps io.ErrUnexpectedEOF, 6 io.ErrUnexpectedEOF itself
+	Reader      int     `json:"reader"`                  // 0 bytes.Reader 1 bufio 2 one-byte 3 half 4 data-with-EOF 5 chunks
+	Chunks      []int   `json:"chunks"`                  // for reader kind 5
+	ReadFail    int     `json:"read_fail"`               // reader fails with its own error after this many bytes, -1 = never
+	ViaCopy     bool    `json:"via_copy"`                // drive ReadFrom through io.Copy
+	Again       bool    `json:"again"`                   // call ReadFrom a second time on the SAME adapter (with an intact stream)
 }
 
 func genC18(t *rapid.T) CaseC18 {
@@ -51,6 +53,8 @@ func genC18(t *rapid.T) CaseC18 {
 	}
 	c.Ctor = rapid.IntRange(0, 5).Draw(t, "ctor")
 	c.ErrKind = rapid.IntRange(0, 6).Draw(t, "err-kind")
+	c.ErrWithData = rapid.IntRange(0, 2).Draw(t, "err-with-data") == 0
+	c.ErrOnce = rapid.Bool().Draw(t, "err-once")
 	c.Reader = rapid.IntRange(0, 5).Draw(t, "reader")
 	if c.Reader == 5 {
 		c.Chunks = rapid.SliceOfN(rapid.IntRange(1, 400), 1, 6).Draw(t, "chunks")
@@ -281,7 +285,7 @@ func checkC18(c CaseC18, x *hx.Ctx) (fail *hx.Failure) {
 	}
 	avail := total
 	if c.ReadFail >= 0 {
-		r = &fragReader{data: clone(data), chunks: c.Chunks, failAfter: c.ReadFail, ownErr: c18ReaderErr(c.ErrKind)}
+		r = &fragReader{data: clone(data), chunks: c.Chunks, failAfter: c.ReadFail, ownErr: c18ReaderErr(c.ErrKind), errWithData: c.ErrWithData, errOnce: c.ErrOnce}
 		if c.Reader == 2 {
 			r = iotest.OneByteReader(r)
 		}
@@ -329,7 +333,13 @@ func checkC18(c CaseC18, x *hx.Ctx) (fail *hx.Failure) {
 		}
 		sink.got = sink.got[:before]
 	}
+	// the read that completes packet FailAt also carries the reader's error: two faults at once, the statement does not say which one is reported
+	bothAtOnce := c.ReadFail >= 0 && c.ErrWithData && c.ReadFail > 0 && c.ReadFail%188 == 0 && c.FailAt == c.ReadFail/188-1
 	switch {
+	case bothAtOnce:
+		if rerr != errC18Writer && rerr != c18ReaderErr(c.ErrKind) {
+			return hx.Failf("readfrom-error", "packet write %d failed and the reader failed with the same read, but ReadFrom returned error %v", c.FailAt, rerr)
+		}
 	case c.FailAt >= 0 && c.FailAt < complete:
 		if rerr != errC18Writer {
 			return hx.Failf("readfrom-writer-error", "packet write %d failed but ReadFrom returned error %v", c.FailAt, rerr)
@@ -362,7 +372,7 @@ func checkC18(c CaseC18, x *hx.Ctx) (fail *hx.Failure) {
 var propC18 = hx.Register(hx.Prop[CaseC18]{ID: "C18", Gen: genC18, Check: checkC18})
 
 func c18Rule() {
-	hx.Rec("C18").SetRule("cases: 0..12 packets of deterministic contents (+ 0..187 extra bytes), a packet-writer mock that records a copy of every packet and fails at a drawn index with a drawn count, the four adapter constructions plus two over a packet writer whose type also has its own Write method, and for ReadFrom the same contents through bytes.Reader, bufio.Reader, one-byte reader, half reader, data-with-EOF reader, drawn chunk sizes 1..400, and a reader that fails after k bytes with a plain, timeout-like, os.ErrDeadlineExceeded, io.ErrNoProgress or EOF-wrapping error (followed by a second ReadFrom on the same adapter); ReadFrom driven directly or through io.Copy. Oracle: the sequence of packets seen by the mock, returned count and error, per the statement. Enumerated: every (packet count 0..6, partial tail in {0,1,94,187}, reader kind, failing position) combination. Non-trivial: a fragmenting reader (not one packet per Read) or a failure position strictly inside the sequence.",
+	hx.Rec("C18").SetRule("cases: 0..12 packets of deterministic contents (+ 0..187 extra bytes), a packet-writer mock that records a copy of every packet and fails at a drawn index with a drawn count, the four adapter constructions plus two over a packet writer whose type also has its own Write method, and for ReadFrom the same contents through bytes.Reader, bufio.Reader, one-byte reader, half reader, data-with-EOF reader, drawn chunk sizes 1..400, and a reader that fails after k bytes with a plain, timeout-like, os.ErrDeadlineExceeded, io.ErrNoProgress or EOF-wrapping error reported with or after the last bytes, once or for good (followed by a second ReadFrom on the same adapter); ReadFrom driven directly or through io.Copy. Oracle: the sequence of packets seen by the mock, returned count and error, per the statement. Enumerated: every (packet count 0..6, partial tail in {0,1,94,187}, reader kind, failing position) combination. Non-trivial: a fragmenting reader (not one packet per Read) or a failure position strictly inside the sequence.",
 		"the packet-writer mock returns 188 on success (the io.Writer-style contract the adapter documents)")
 }
 
